@@ -250,7 +250,7 @@ pub const HOSTILE: &[&str] = &[
     "[", "]", "(", ")", "{", "}", ".", ",", ";", ":", "!", "?", "...", "..", " ", "  ", "\n", "\n\n", "\n\n\n",
 ];
 
-pub const TERMS: &[&str] = &["\t ", " \t", "\t \t ", "  \t\t", " \t x ", ". ", ", ", "; ", ": ", "! ", "? ", " - ", " \u{2014} ", " (", ") ", "\n", "\n\n", " ", "  ", "\t", ".", "...", ".\n\n", " \"", "\" ", " \u{201C}", "\u{201D} "];
+pub const TERMS: &[&str] = &[" \n", "\n ", " \n ", "  \n", "\t\n", " \r\n", "\t ", " \t", "\t \t ", "  \t\t", " \t x ", ". ", ", ", "; ", ": ", "! ", "? ", " - ", " \u{2014} ", " (", ") ", "\n", "\n\n", " ", "  ", "\t", ".", "...", ".\n\n", " \"", "\" ", " \u{201C}", "\u{201D} "];
 
 pub const NUMBERS: &[&str] = &[
     "1", "0", "0th", "0st", "00th", "0.0th", "0TH", "1.0st", "-1st", "2nd", "3rd", "1st", "4th", "11st", "12nd", "13rd", "21th", "101st", "1.5", "1.", ".5", "1e5", "1e999", "1E-3", "0x1F", "0xZZ", "0x",
